@@ -67,6 +67,14 @@ def _cases(ctx, deep=False):
                 cases.append({'cfg': {'fault_at': 0, 'fault_mode': mode}, 'seed': rng.randrange(1 << 30),
                               'script': [['sync_open'] if sync else ['open'], ['sleep', 0.5],
                                          ['sync_close'] if sync else ['close'], ['reconnect']]})
+    # a second user thread writes to a memory while the link fails (lock order: send lock vs memory write lock)
+    for k in (20, 30, 46):
+        for mode in ('sender', 'driver'):
+            for s in range(seeds):
+                cases.append({'cfg': {'fault_at': k + 1 + s, 'fault_mode': mode}, 'seed': rng.randrange(1 << 30),
+                              'script': [['bg_mem_write', k], ['sync_open'], ['sleep', 3.0], ['sync_close'], ['reconnect']]})
+        cases.append({'cfg': {}, 'seed': rng.randrange(1 << 30),
+                      'script': [['bg_mem_write', k], ['sync_open'], ['sleep', 1.0], ['sync_close'], ['reconnect']]})
     # no driver / driver raises / silent peer
     for s in range(seeds):
         cases.append({'cfg': {}, 'no_driver': True, 'seed': s, 'script': [['open'], ['close']]})
@@ -116,6 +124,8 @@ def _model_events(case, r):
         if e[0] == 'ev':
             if e[1] in own:
                 pending.setdefault(e[2], []).append(e[1])
+            elif e[1].startswith('mem_write'):
+                pass                  # not a lifecycle event
             else:
                 evs.append(e[1])
         else:
@@ -195,6 +205,17 @@ def oracle(ctx, deep=False):
     if runs is None or deep:
         runs = [(c, c02_run.run_case(c)) for c in _cases(ctx, deep)]
     fails = []
+    # lock-order analysis over all runs (lockdep style): a cycle is a potential deadlock even if no run dead-locked
+    edges = {}
+    for c, r in runs:
+        for e in r.get('lock_edges', []):
+            edges.setdefault(tuple(e), c)
+    for cyc in c02_oracle.lock_cycles(list(edges)):
+        involved = [[list(e), edges[e]] for e in edges if set(e) <= set(cyc)]
+        known = set(cyc) <= {'cflib.crazyflie', 'cflib.crazyflie.mem'}
+        fails.append({'class': 'send_lock_vs_mem_write_lock_inversion' if known else 'lock_order_cycle:' + '<->'.join(cyc),
+                      'kind': 'schedule', 'case': {'lock_cycle': list(cyc), 'edges_and_witness_cases': involved[:4]},
+                      'detail': 'nested lock acquisitions in opposite orders (or re-acquisition of a held non-reentrant lock)'})
     for c, r in runs:
         for a in c02_oracle.check(c, r):
             fails.append({'class': _classify(c, r, a), 'kind': 'schedule',
